@@ -626,3 +626,24 @@ M("C23", "sv dark wrapper queries the matrix at time 0", "kill",
   [(SVI, "                mat = original(t).clone()", "                mat = original(0.0).clone()")], "DARK-sv")
 M("C25", "twin: sv dark wrapper reads the Pulser data's callable directly", "twin",
   [(SVI, "                mat = original(t).clone()", "                mat = self._data.interaction_matrix(t).clone()")])
+MCF = "emu_mps/mps_config.py"
+M("C33", "Krylov floor tested on the keyword arguments (F15 returns)", "kill",
+  [(MCF, "        precision = self.precision\n        extra_krylov_tolerance = self.extra_krylov_tolerance\n", "")], "CONFIG-krylov-floor")
+M("C33", "Krylov floor: precision effective, extra from the keyword argument", "kill",
+  [(MCF, "        extra_krylov_tolerance = self.extra_krylov_tolerance\n", "")], "CONFIG-krylov-floor")
+M("C33", "autosave interval tested on the keyword argument", "kill",
+  [(MCF, "            self.autosave_dt > MIN_AUTOSAVE_DT\n", "            autosave_dt > MIN_AUTOSAVE_DT\n")], "CONFIG-autosave")
+M("C33", "twin: floor reads the stored options dictionary", "twin",
+  [(MCF, "        precision = self.precision\n        extra_krylov_tolerance = self.extra_krylov_tolerance\n",
+    "        precision = self._backend_options[\"precision\"]\n        extra_krylov_tolerance = self._backend_options[\"extra_krylov_tolerance\"]\n")])
+M("C33", "twin: floor written on the attributes without locals", "twin",
+  [(MCF, "        precision = self.precision\n        extra_krylov_tolerance = self.extra_krylov_tolerance\n        prod_tol = precision * extra_krylov_tolerance\n        if prod_tol < MIN_KRYLOV_TOL:\n            new_extra_krylov_tolerance = MIN_KRYLOV_TOL / precision\n",
+    "        prod_tol = self.precision * self.extra_krylov_tolerance\n        if prod_tol < MIN_KRYLOV_TOL:\n            new_extra_krylov_tolerance = MIN_KRYLOV_TOL / self.precision\n"),
+   (MCF, "            new_extra_krylov_tolerance = extra_krylov_tolerance\n", "            new_extra_krylov_tolerance = self.extra_krylov_tolerance\n")])
+OPTF = "emu_mps/optimatrix/optimiser.py"
+M("C32", "matrix rescaled by its signed maximum before the search", "kill",
+  [(OPTF, "    input_mat = torch.abs(input_matrix)\n", "    input_mat = torch.abs(input_matrix / torch.max(input_matrix))\n")], "ARGMIN")
+M("C32", "matrix normalised by its sum before the search", "kill",
+  [(OPTF, "    input_mat = torch.abs(input_matrix)\n", "    input_mat = torch.abs(input_matrix) / torch.abs(input_matrix).sum()\n")], "ARGMIN")
+M("C32", "twin: method spelling of abs", "twin",
+  [(OPTF, "    input_mat = torch.abs(input_matrix)\n", "    input_mat = input_matrix.abs()\n")])
